@@ -249,17 +249,17 @@ impl<const N: usize> UdpAssociateContext<N> {
                                 Ok(addr) => addr,
                                 Err(e) => {
                                     error!("[udp] DNS resolve failed; peer={peer_addr}, error={e}");
-                                    break;
+                                    continue;
                                 },
                             };
                             if !self.validate_packet_id(session.packet_id) {
                                 error!("[udp] packet_id {} out of window; client={}, peer={}", session.packet_id, self.client_addr, peer_addr);
-                                break;
+                                continue;
                             }
                             self.user.clone_from(&session.user);
                             if let Err(e) = self.outbound.send_to(&content, resolved_addr).await {
                                 error!("[udp] send peer failed; client={}, peer={}/{}, error={}", self.client_addr, peer_addr, resolved_addr, e);
-                                break;
+                                continue;
                             }
                         }
                         None => {
